@@ -1,18 +1,17 @@
 #!/bin/sh
 # usage: tools/mut.sh <patch.diff> <ID> [<ID>...]   (env TIER=quick|thorough, VERIF_SEED)
 # Applies a patch to a scratch copy of /repo (never to /repo), runs the given checks against it
-# with VERIF_REPO, prints the VIOLATION lines / exit codes, removes the copy.  Evidence files written
-# during these runs are restored afterwards (git checkout) because they do not describe /repo.
+# with VERIF_REPO, prints the VIOLATION lines / exit codes, removes the copy.  Evidence and replay files of
+# these runs go to /var/tmp/mutout (VERIF_OUT) because they do not describe /repo.
 patch="$1"; shift
 d=$(mktemp -d /var/tmp/pyyaml-mut-XXXXXX)
 cp -r /repo/lib /repo/tests /repo/yaml "$d"/ 2>/dev/null
 ( cd "$d" && git init -q . && git apply --unsafe-paths "$patch" ) || { echo "patch failed"; rm -rf "$d"; exit 3; }
 cd "$(dirname "$0")/.."
 for id in "$@"; do
-  out=$(VERIF_REPO="$d" VERIF_SHRINK_S=0 ./check "$id" --tier "${TIER:-quick}" 2>&1); rc=$?
+  out=$(VERIF_REPO="$d" VERIF_OUT=/var/tmp/mutout VERIF_SHRINK_S=0 ./check "$id" --tier "${TIER:-quick}" 2>&1); rc=$?
   echo "== $id rc=$rc $(echo "$out" | grep -c '^VIOLATION') violation line(s)"
   echo "$out" | grep -A2 '^VIOLATION' | cut -c1-300 | head -${LINES_SHOWN:-9}
   echo "$out" | grep 'HARNESS-ERROR' | head -3
-  git checkout -q -- "evidence/$id.json" 2>/dev/null
 done
 rm -rf "$d"
